@@ -227,7 +227,9 @@ pub fn sequence_program(ks: &[usize], module_variant: usize) -> Program {
         f.defs.push(construct(*k, i, sp));
     }
     if module_variant % 4 == 1 {
-        // same module as the library, reopened in another file
+        // same module as the library, reopened in another file: the two declarations are told apart by an attribute
+        // (and by the position it gives the `module` keyword)
+        f.module.as_mut().unwrap().attrs = vec![MAttr::with("cs::reopened", vec![MArg::Ident("here".into())])];
     }
     vec![f, lib_file()]
 }
